@@ -94,6 +94,63 @@ autoescape_arg_harness!(c02_autoescape_arg_int, |n: i64| Value::from(n), |n: i64
 autoescape_arg_harness!(c02_autoescape_arg_other_str, |_n: i64| Value::from("xml"), |_n: i64| false, true); // tier=experimental cap=900
 // @verif-end
 
+
+// ---------------------------------------------------------------------------
+// C06: inheritance cycles are errors, not hangs.  `{% extends %}` does not recurse - it swaps the
+// instruction stream - so the ONLY thing that ends a cyclic chain is load_blocks recognising a template it
+// has already loaded.  State::get_template (environment lookup through the path-join callback, loader and
+// compiler) is replaced by a model that resolves every request to one compiled template named "x/b", the
+// way a join callback resolves the relative spelling "./b" used inside "x/a" and "x/b" alike.
+// ---------------------------------------------------------------------------
+pub(crate) fn get_template_model<'template, 'env>(
+    this: &State<'template, 'env>,
+    _name: &str,
+) -> Result<crate::template::Template<'env, 'env>, Error>
+where
+    'template: 'template,
+    'env: 'env,
+{
+    let compiled: &'static crate::template::CompiledTemplate<'static> =
+        Box::leak(Box::new(crate::template::CompiledTemplate {
+            instructions: Instructions::new("x/b", ""),
+            blocks: BTreeMap::new(),
+            buffer_size_hint: 0,
+            syntax_config: Default::default(),
+            initial_auto_escape: AutoEscape::None,
+        }));
+    Ok(crate::template::Template::new(
+        this.env(),
+        crate::template::CompiledTemplateRef::Borrowed(compiled),
+    ))
+}
+
+macro_rules! extends_cycle_harness {
+    ($name:ident, $first:expr, $second:expr) => {
+        #[kani::proof]
+        #[kani::unwind(6)]
+        #[kani::stub(std::hash::RandomState::new, crate::verif_common::random_state_stub)]
+        #[kani::stub(alloc::fmt::format, crate::verif_common::format_stub)]
+        #[kani::stub(crate::vm::state::State::get_template, get_template_model)]
+        #[kani::stub(alloc::sync::Arc::drop_slow, crate::verif_common::arc_drop_slow_leak)]
+        fn $name() {
+            let env: &'static Environment<'static> = Box::leak(Box::new(Environment::empty()));
+            let mut state = State::new_for_env(env);
+            let r1 = Executor::load_blocks(Value::from($first), &mut state);
+            assert!(r1.is_ok());
+            let r2 = Executor::load_blocks(Value::from($second), &mut state);
+            assert!(r2.is_err());
+            kani::cover!(true);
+            core::mem::forget((r1, r2, state));
+        }
+    };
+}
+
+// @verif-block props=C06 tier=experimental cap=900 group=core doc=a_template_that_is_already_part_of_the_inheritance_chain_is_refused_when_`extends`_reaches_it_again_-_whether_the_name_is_spelled_as_the_loaded_template_is_called_("x/b")_or_in_a_relative_form_the_path-join_callback_resolves_to_the_same_template_("./b"):_the_second_load_blocks_is_an_error_(otherwise_a_->_b_->_a_->_..._never_terminates);_State::get_template_replaced_by_a_model_that_resolves_every_request_to_the_template_named_"x/b"
+extends_cycle_harness!(c06_extends_cycle_same_spelling, "x/b", "x/b");
+extends_cycle_harness!(c06_extends_cycle_relative_spelling, "./b", "./b");
+extends_cycle_harness!(c06_extends_cycle_mixed_spelling, "x/b", "./b");
+// @verif-end
+
 #[cfg(test)]
 mod playback {
     use super::*;
